@@ -63,7 +63,7 @@ PRESERVING = [
 def _lzss(ctx):
     """the literal values must survive the default (LZSS) compression setting: the C12 writer/reader rules of the LZSS format, under C10 ids"""
     from ..rules import sC12
-    rules = sC12.lzss_rules(ctx) + [sC12.rule_match(ctx), sC12.rule_end(ctx), sC12.rule_literal(ctx), sC12.rule_caller(ctx)]
+    rules = sC12.lzss_rules(ctx) + [sC12.rule_match(ctx), sC12.rule_end(ctx), sC12.rule_literal(ctx), sC12.rule_caller(ctx), sC12.rule_extent(ctx)]
     for r in rules:
         r.id = 'C10-LZSS-' + r.id.split('-', 1)[1]
         for f in r.findings:
@@ -71,9 +71,33 @@ def _lzss(ctx):
     return rules
 
 
+def _cstring(ctx):
+    """the literal values must survive being written as C string / character literals: a literal, or the whole string table, longer than the C-literal split limit is cut
+    into `"..." "..."` pieces (split_string_literal) or written as a character array (_split_characters), after byte-wise escaping (escape_byte_string / escape_char).
+    These are the C11 rules of that leg (escape table read back with a reference C reader, decision table of the cut position over every sequence of escape-token shapes
+    lying across a chunk end, tokeniser of the array form, def-use from every quoted placeholder back to an escaper), under C10 ids: a cut inside `\\ooo`, a lost escape
+    or an unescaped quote changes the run-time value of the literal, which is this property."""
+    from ..rules import pC11, sC11
+    esc, _longest = pC11.rule_escape_table(ctx)
+    rules = [esc, pC11.rule_escape_char(ctx), pC11.rule_raw_literals(ctx), sC11.rule_cut(ctx), sC11.rule_char_array(ctx), sC11.rule_sinks(ctx)]
+    for r in rules:
+        r.id = 'C10-CSTR-' + r.id.split('-', 1)[1]
+        for f in r.findings:
+            f.rule = r.id
+    return rules
+
+
+# the one benign inconsistency of the escaper that C11 lists (see sa/props/C11.py EXEMPT), under the id the rule has here
+EXEMPT = {
+    ('C10-CSTR-ESC', 'byte:0x7f:unreadable'):
+        'escape_byte_string writes DEL (0x7f) raw when no byte >= 128 is present and as \\177 otherwise; a raw DEL inside a string literal is implementation-defined, not invalid, '
+        'and gcc/clang/MSVC map it to 0x7f (same entry as C11-ESC in sa/props/C11.py). Inconsistent, not wrong.',
+}
+
+
 def run(ctx):
     from ..rules import sC10
-    return _lzss(ctx) + [pC10.rule_escapes(ctx), pC10.rule_name_alphabet(ctx), pC10.rule_total(ctx), pC10.rule_l6(ctx),
+    return _lzss(ctx) + _cstring(ctx) + [pC10.rule_escapes(ctx), pC10.rule_name_alphabet(ctx), pC10.rule_total(ctx), pC10.rule_l6(ctx),
             pC10.rule_siblings(ctx), pC10.rule_algorithms(ctx),
             sC10.rule_prefix(ctx), sC10.rule_cat(ctx), sC10.rule_strtab(ctx), sC10.rule_pykey(ctx), sC10.rule_strfold(ctx), sC10.rule_clen(ctx), sC10.rule_builders(ctx), sC10.rule_pyrequest(ctx), sC10.rule_newlines(ctx), sC10.rule_codec(ctx)]
 
